@@ -2,4 +2,5 @@ pub mod emu;
 pub mod program;
 pub mod run;
 pub mod stats;
+pub mod stdio;
 pub mod stepcase;
